@@ -7,7 +7,7 @@ From SqlModel Require Import Base PyStr Re MinWidth Lexer CaseDefs WordsDefs Reg
      RegionExamples NameWordsDefs.
 From SqlModel.Gen Require Import Atoms CaseTabs KwTabs Rules.
 From SqlModel.Inst Require Import Cur WordsCur WordsFin Words NameWordsInst.
-From SqlModel Require SwallowDefs.
+From SqlModel Require SwallowDefs SwallowFacts.
 From SqlModel.Inst Require C14Swallow.
 
 Local Open Scope N_scope.
@@ -143,6 +143,18 @@ Theorem C14_comment_after_operator_refuted :
   | Err _ => False
   end.
 Proof. exact C14Swallow.comment_after_operator_refuted. Qed.
+(* EVERY text: a token whose value contains a single quote is an Error character, a comment, a quoted name, a dollar-quoted
+   or quoted literal, or the Keyword.TZCast token -- never another keyword, an operator, a number, punctuation, whitespace
+   or an unquoted name.  (Soundness of the `consumes` analysis: Lexer/SwallowFacts.ends_clean, LexSpec_consumers.) *)
+Theorem C14_quote_token_types : forall t toks tk,
+  cur_lex t = Ok toks -> In tk toks -> In 39 (snd tk) ->
+  existsb (ttype_eqb (fst tk)) C14Swallow.quote_types = true.
+Proof. exact C14Swallow.quote_token_types. Qed.
+Theorem C14_consumes_sound : forall c r, SwallowDefs.consumes c r = false ->
+  forall x k, rmatch lower r x = Some k -> ~ In c (firstn k (rest x)).
+Proof. intros c r H x k. exact (SwallowFacts.rmatch_clean lower c r x k H). Qed.
+Print Assumptions C14_quote_token_types.
+Print Assumptions C14_consumes_sound.
 Print Assumptions C14_swallowers_pinned.
 Print Assumptions C14_single_quoted_after_tzcast_refuted.
 
